@@ -519,8 +519,13 @@ func jsDelay(vm *goja.Runtime, a action) (goja.Value, int64) {
 		return vm.ToValue(math.NaN()), 0
 	case "0.9":
 		return vm.ToValue(0.9), 0
-	case "str":
-		return vm.ToValue("1e19"), never
+	case "throw":
+		// the conversion of the delay throws: nothing is set (the harness logs `set` without a handle)
+		v, _ := vm.RunString("({valueOf: function () { throw new Error('delay') }})")
+		return v, 0
+	case "sym":
+		v, _ := vm.RunString("Symbol('delay')")
+		return v, 0
 	}
 	return vm.ToValue(a.D), int64(a.D)
 }
@@ -888,7 +893,7 @@ func (g *gen) exotic() string {
 	}
 	// (numbers only: a delay given as the string "1e19" goes through goja's string-to-integer conversion, which
 	// overflows to a negative number -- a quirk of the engine, and strings are not among the property's delays)
-	xs := []string{"1e19", "1e300", "inf", "2p63", "1e13", "max", "-inf", "-1e19", "nan", "0.9"}
+	xs := []string{"1e19", "1e300", "inf", "2p63", "1e13", "max", "-inf", "-1e19", "nan", "0.9", "throw", "sym"}
 	x := xs[g.r.Intn(len(xs))]
 	g.st.Hit("jsdelay:" + x)
 	return x
